@@ -109,9 +109,11 @@ class Cosmo(object):
         )
 
         if h is not None:
-            H0 = 100.0 * h
+            H0 = 100.0 * float(h)
 
-        DH = _CLIGHT / H0
+        # in double precision whatever the type of H0 (a numpy float32
+        # scalar would make this a float32 division)
+        DH = _CLIGHT / float(H0)
 
         self._cosmo = _cosmolib.cosmo(DH, flat, omega_m, omega_l, omega_k)
 
